@@ -20,6 +20,16 @@ MEMBERS = [("secret-report-2026.txt", content.make("marker", 150, 11)), ("confid
            ("tiny-but-marked.dat", content.make("marker", 24, 33))]
 
 
+# member-list / API variants: "str" = the three marker members through writestr; "blocks" = members whose lengths sit on and
+# around the AES block size (16k-1, 16k, 16k+1) through writef; "file" = the marker members through write() from files on disk
+VARIANTS = {
+    "str": MEMBERS,
+    "blocks": [(f"block-aligned-{n:03d}.dat", content.make("marker", n, 40 + n)) for n in (31, 32, 33, 48, 64, 95)],
+    "file": MEMBERS,
+}
+_CUR = {"variant": "str"}
+
+
 def wrong_passwords(pw: str):
     out = ["different-password", pw[:-1] if pw else "x", pw.swapcase() if pw.swapcase() != pw else pw + "A", pw + "x", None]
     return [w for w in dict.fromkeys(out) if w != pw]
@@ -33,8 +43,26 @@ def write_archive(chain, hmode, pw):
     with py7zr.SevenZipFile(bio, "w", filters=chains.py_filters(chain), password=pw, **kw) as z:
         if hmode == "setter":
             z.set_encrypted_header(True)
-        for n, d in MEMBERS:
-            z.writestr(d, n)
+        v = _CUR["variant"]
+        if v == "str":
+            for n, d in MEMBERS:
+                z.writestr(d, n)
+        elif v == "blocks":
+            for n, d in MEMBERS:
+                z.writef(io.BytesIO(d), n)
+        else:
+            import shutil
+            import tempfile
+
+            td = tempfile.mkdtemp(prefix="c11f", dir="/dev/shm")
+            try:
+                for i, (n, d) in enumerate(MEMBERS):
+                    fp = os.path.join(td, f"src{i}")
+                    with open(fp, "wb") as f:
+                        f.write(d)
+                    z.write(fp, arcname=n)
+            finally:
+                shutil.rmtree(td, ignore_errors=True)
     return bio.getvalue()
 
 
@@ -56,7 +84,10 @@ def windows(data: bytes, w: int):
     return {data[i : i + w] for i in range(0, len(data) - w + 1)}
 
 
-def judge_written(chain, hmode, pw):
+def judge_written(chain, hmode, pw, variant="str"):
+    global MEMBERS
+    _CUR["variant"] = variant
+    MEMBERS = VARIANTS[variant]
     out = []
     blob = write_archive(chain, hmode, pw)
     blob2 = write_archive(chain, hmode, pw)
@@ -171,6 +202,8 @@ def judge_ref(layout_name, pw):
         "lzma2+aes-c0-salt": {"folders": [[0], [1, 2]], "chains": [[("LZMA2", {}), ("AES", {})]] * 2, "aes": {"cycles": 0, "salt": b"NaCl", "iv": bytes(range(1, 17))}},
         "aes-header-c4": {"folders": [[0, 1, 2]], "chains": [[("COPY", {}), ("AES", {})]], "header": "lzma2+aes", "aes": {"cycles": 4, "salt": b"", "iv": bytes(range(2, 10))}},
     }
+    global MEMBERS
+    MEMBERS = VARIANTS["str"]
     members = [{"name": n, "kind": "file", "data": d, "attr": 0x20, "mtime": 132223104000000000} for n, d in MEMBERS]
     blob = ref7z.write(members, layouts[layout_name], password=pw)
     out = []
@@ -191,14 +224,14 @@ def shard(task):
     sh = Shard()
     install_key_cache()
     if kind == "written":
-        for chain, hmode, pw in arg:
-            r = judge_written(chain, hmode, pw)
-            sh.case((chain, hmode, pw), sample={"chain": chain, "header_encryption": hmode, "password": pw} if len(sh.samples) < 2 else None)
+        for chain, hmode, pw, variant in arg:
+            r = judge_written(chain, hmode, pw, variant)
+            sh.case((chain, hmode, pw, variant), sample={"chain": chain, "header_encryption": hmode, "password": pw, "members": variant} if len(sh.samples) < 2 else None)
             for sym, msg in r:
                 if sym.startswith("harness:"):
                     sh.count(sym)
                     continue
-                sh.violation({"symptom": sym, "chain": chain, "header": hmode}, f"{chain}/{hmode}/{pw!r}: {msg}", {"kind": "written", "chain": chain, "hmode": hmode, "pw": pw})
+                sh.violation({"symptom": sym, "chain": chain, "header": hmode}, f"{chain}/{hmode}/{pw!r}: {msg}", {"kind": "written", "chain": chain, "hmode": hmode, "pw": pw, "variant": variant})
     else:
         for layout, pw in arg:
             r, n = judge_ref(layout, pw)
@@ -216,7 +249,7 @@ def shard(task):
 def replay(case):
     install_key_cache()
     if case["kind"] == "written":
-        return judge_written(case["chain"], case["hmode"], case["pw"])
+        return [v for v in judge_written(case["chain"], case["hmode"], case["pw"], case.get("variant", "str")) if not v[0].startswith("harness:")]
     return judge_ref(case["layout"], case["pw"])[0]
 
 
@@ -225,7 +258,7 @@ def main(tier="quick", seed=0, only=None):
     cs = chains.FAMILIES_AES if tier == "thorough" else ["COPY+AES", "AES", "LZMA2+AES", "BZIP2+AES", "ZSTD+AES", "X86+LZMA2+AES", "PPMD+AES", "DEFLATE+AES"]
     cs = [c for c in cs if c in chains.ALL]
     pws = PASSWORDS if tier == "thorough" else PASSWORDS[:5]
-    cases = list(itertools.product(cs, HEADER_MODES, pws))
+    cases = list(itertools.product(cs, HEADER_MODES, pws, ["str"])) + list(itertools.product(cs, HEADER_MODES, pws[1:3] if tier == "quick" else pws, ["blocks", "file"]))
     tasks = [("written", c) for c in chunks(cases, 3)]
     refs = list(itertools.product(["copy+aes-c4", "lzma2+aes-c0-salt", "aes-header-c4"], ["pässwörd", "a", "Tr0ub4dor&3"]))
     tasks += [("ref", [c]) for c in refs]
@@ -236,7 +269,7 @@ def main(tier="quick", seed=0, only=None):
     return chk.finish(
         rule=(
             f"full product {len(cs)} chains ending in 7zAES (incl. AES alone and Copy+AES) x header encryption off / constructor flag / setter x {len(pws)} "
-            "passwords (empty, 1 char, Latin-1, kana, astral, 70 chars) on members with marker plaintext and marker names. Per archive: no 24-byte window "
+            "passwords (empty, 1 char, Latin-1, kana, astral, 70 chars) on members with marker plaintext and marker names (three members through writestr; the same through write() from files; six members of 31/32/33/48/64/95 bytes - on and around the AES block size - through writef). Per archive: no 24-byte window "
             "of any member in the raw bytes; decoding each packed stream with the AES stage left out never yields plaintext; with header "
             "encryption neither UTF-16LE nor UTF-8 names appear and a keyless parse names no member; two archives of the same input "
             "and password differ in every IV and every ciphertext block, no IV is zero; right password round-trips; absent password raises "
